@@ -148,7 +148,7 @@ def run_bn(program: str, fuel: int = 4000):
         except Exception: pass
         _DRV = None
         return None
-    if out.startswith('int ') or out.startswith('bool '):
+    if out.startswith('int ') or out.startswith('bool ') or out.startswith('list '):
         return out.split(' ', 1)[1]
     return 'fn' if out == 'fn' else None
 
